@@ -1,11 +1,13 @@
 #!/bin/bash
 # tools/apply_check.sh <seeded dir> <check ids...> : apply the patch to /repo, run the checks (quick), revert
+# (EVAL_REPO / EVAL_VERIF select a private copy made by tools/eval_copy.sh)
 MD="$1"; shift
-cd /repo || exit 2
+ER="${EVAL_REPO:-/repo}"; EV="${EVAL_VERIF:-/verif}"
+cd "$ER" || exit 2
 git apply --check "$MD/patch.diff" || { echo "PATCH-DOES-NOT-APPLY"; exit 3; }
 git apply "$MD/patch.diff"
 for c in "$@"; do
-  OUT=$(/verif/check $c --tier ${MUT_TIER:-quick} 2>&1); RC=$?
+  OUT=$($EV/check $c --tier ${MUT_TIER:-quick} 2>&1); RC=$?
   echo "$(basename $MD) check $c: exit=$RC; $(echo "$OUT" | grep -E '^\[C' | tail -1 | sed 's/states=.*violations=/violations=/; s/known=.*//')"
   [ -n "${SHOW:-}" ] && echo "$OUT" | grep -A3 '^VIOLATION' | head -8
 done
